@@ -36,12 +36,12 @@ def run(tier):
     ranges = [[lo, hi] for lo in probes for hi in probes]
     cases = []
     for i, ordr in enumerate(full + rest):
-        cases.append({"kind": "skiplist", "cmp": ["int", "string", "bytes", "intdiff"][i % 4], "inserts": ordr, "probes": probes, "ranges": ranges})
+        cases.append({"kind": "skiplist", "cmp": ["int", "string", "bytes", "intdiff", "bytesle"][i % 5], "inserts": ordr, "probes": probes, "ranges": ranges})
     # random big orders
     for n in ([100, 1000, 10000] if thorough else [100, 2000]):
         ks = rng.sample(range(0, n * 3), n)
         pr = rng.sample(range(-1, n * 3 + 1), 40)
-        cases.append({"kind": "skiplist", "cmp": rng.choice(["int", "string", "bytes"]), "inserts": ks, "probes": pr,
+        cases.append({"kind": "skiplist", "cmp": rng.choice(["int", "string", "bytes", "bytesle"]), "inserts": ks, "probes": pr,
                       "ranges": [[rng.randrange(n * 3), rng.randrange(n * 3)] for _ in range(20)]})
     rng.shuffle(lists)
     pql = lists if thorough else lists[:3000]
